@@ -98,6 +98,10 @@ type Violation struct {
 	Inputs    map[string]interface{}
 	Decisions []Decision
 	Trace     []string
+	Sig       string
+	Light     bool
+	Harness   string
+	Kinds     map[string]string
 }
 
 // PathEnd describes how a path terminated.
@@ -166,6 +170,7 @@ type World struct {
 	poolReuse bool
 	mapOrder  bool
 	timerBudget int
+	sigSeen   map[string]int
 }
 
 type watchEvent struct {
@@ -390,8 +395,38 @@ func (w *World) crash(g *G) {
 	w.ended = true
 }
 
+// Signature identifies the failing assertion/panic together with its culprit sites; it is what
+// known_findings.json is keyed by.
+func (v *Violation) Signature() string {
+	var tags []string
+	for _, t := range v.Tags {
+		if strings.HasPrefix(t, "sig:") {
+			tags = append(tags, t)
+		}
+	}
+	s := v.Kind + "|" + v.Label
+	if v.Kind == "panic" {
+		s += "|" + v.Msg + "|" + v.Site
+	}
+	if len(v.Sites) > 0 {
+		s += "|sites=" + strings.Join(v.Sites, ",")
+	}
+	if len(tags) > 0 {
+		s += "|" + strings.Join(tags, ",")
+	}
+	return s
+}
+
 func (w *World) addViolation(v *Violation) {
 	v.Tags = append([]string{}, w.tags...)
+	v.Sig = v.Signature()
+	if w.sigSeen != nil {
+		w.sigSeen[v.Sig]++
+		if w.sigSeen[v.Sig] > 2 {
+			w.violations = append(w.violations, &Violation{Kind: v.Kind, Label: v.Label, Sig: v.Sig, Light: true})
+			return
+		}
+	}
 	v.Trace = append([]string{}, w.trace...)
 	v.Decisions = w.ex.snapshot()
 	if v.Model == nil {
@@ -400,6 +435,11 @@ func (w *World) addViolation(v *Violation) {
 		}
 	}
 	v.Inputs = w.inputValues(v.Model)
+	v.Kinds = map[string]string{}
+	for k, x := range w.inputKind {
+		v.Kinds[k] = x
+	}
+	v.Harness = w.cfg.Harness
 	w.violations = append(w.violations, v)
 }
 
